@@ -154,25 +154,36 @@ std::string urldecode(char const *begin,char const *end)
 	return result;
 }
 
+namespace {
+	void md5_of_string(std::string const &in,unsigned char data[16])
+	{
+		using namespace cppcms::impl;
+		md5_state_t state;
+		md5_init(&state);
+		// md5_append() takes an int: feed it in pieces it can count
+		unsigned const char *p = reinterpret_cast<unsigned const char *>(in.c_str());
+		size_t size = in.size();
+		while(size > 0) {
+			size_t n = size > (1u << 27) ? (1u << 27) : size;
+			md5_append(&state,p,static_cast<int>(n));
+			p += n;
+			size -= n;
+		}
+		md5_finish(&state,data);
+	}
+}
+
 std::string md5(std::string const &in)
 {
-	using namespace cppcms::impl;
 	unsigned char data[16];
-	md5_state_t state;
-	md5_init(&state);
-	md5_append(&state,reinterpret_cast<unsigned const char *>(in.c_str()),in.size());
-	md5_finish(&state,data);
+	md5_of_string(in,data);
 	return std::string(reinterpret_cast<char *>(data),16);
 }
 
 std::string md5hex(std::string const &in)
 {
-	using namespace cppcms::impl;
 	unsigned char data[16];
-	md5_state_t state;
-	md5_init(&state);
-	md5_append(&state,reinterpret_cast<unsigned const char *>(in.c_str()),in.size());
-	md5_finish(&state,data);
+	md5_of_string(in,data);
 	char buf[33]={0};
 	impl::tohex(data,sizeof(data),buf);
 	return buf;
